@@ -5,9 +5,6 @@ From Boltons Require Import Model.C02_PtrModel Proofs.C02_PtrLemmas.
 Close Scope N_scope.
 Open Scope nat_scope.
 
-(* link[VALUE] = value *)
-Definition p_set_value (pr : pring) (n : id) (v : V) : pring :=
-  mkPR (set_val (pr_heap pr) n (Some v)) (pr_anchor pr) (pr_lookup pr) (pr_fresh pr).
 
 (* ---- field-wise effect of the four setters ---------------------------------------- *)
 Ltac fld := intros; unfold set_prev, set_next, set_key, set_val, upd;
@@ -305,6 +302,7 @@ Lemma rep_move pr l ids k v :
   Rep pr l ids -> NoDup (keys l) -> d_get l k = Some v ->
   exists pr' n ids', p_move_to_front pr k = Some (pr', n)
     /\ Rep pr' (d_del l k ++ [(k, v)]) ids'
+    /\ c_val (pr_heap pr' n) = Some v
     /\ (forall v', Rep (p_set_value pr' n v') (d_del l k ++ [(k, v')]) ids').
 Proof.
   intros [ND CH CE LK LND FR] NDl G.
@@ -351,12 +349,13 @@ Proof.
     - apply in_or_app. right. now left. }
   assert (ND' : NoDup (a :: (ids1 ++ ids2) ++ [n])).
   { change (a :: (ids1 ++ ids2) ++ [n]) with ((a :: ids1 ++ ids2) ++ [n]). now apply nodup_snoc. }
-  eexists. exists n, ((ids1 ++ ids2) ++ [n]). split; [reflexivity|]. rewrite D. split.
+  eexists. exists n, ((ids1 ++ ids2) ++ [n]). split; [reflexivity|]. rewrite D. split; [|split].
   - constructor; simpl; try assumption.
     apply cells_hold_app; [apply cells_hold_app|].
     + eapply cells_hold_frame; [|exact C1]. intros j _. apply KV.
     + eapply cells_hold_frame; [|exact C2]. intros j _. apply KV.
     + simpl. destruct (KV n) as [A1 A2]. rewrite A1, A2. auto.
+  - simpl. destruct (KV n) as [_ A2]. now rewrite A2.
   - intro v'. unfold p_set_value. constructor; cbn [pr_heap pr_anchor pr_lookup pr_fresh]; try assumption.
     + eapply chain_frame; [| |exact CHl]; intros j _; fields; reflexivity.
     + apply cells_hold_app; [apply cells_hold_app|].
